@@ -9,6 +9,7 @@ import (
 	"os"
 	"runtime"
 	"strconv"
+	"strings"
 	"sync"
 	"testing"
 	"time"
@@ -128,6 +129,20 @@ func pure(rec *mon.Recorder) {
 	}
 	rec.Case(mon.Digest("pure", nIds), true)
 	rec.Sample(map[string]interface{}{"pure_ids": len(idl), "moduli": "1..1024", "table_digest": fmt.Sprintf("%016x", d1)})
+}
+
+// retry repeats a call while it fails for transport reasons (the peers' cached
+// connections to a restarted node reconnect with back-off); a routing failure
+// ("not found") is returned at once.
+func retry(f func() error) error {
+	var err error
+	for i := 0; i < 60; i++ {
+		if err = f(); err == nil || strings.Contains(err.Error(), "not found") || strings.Contains(err.Error(), "already exists") {
+			return err
+		}
+		time.Sleep(200 * time.Millisecond)
+	}
+	return err
 }
 
 var apiPaths = []string{"insert", "update", "remove", "batch-insert", "batch-update", "batch-remove"}
@@ -267,6 +282,67 @@ func system(rec *mon.Recorder, c int) {
 			}
 		}
 	}
+	// --- every restart computes the same owner: items written before a restart (by
+	// log replay, or from a compacted catalogue snapshot) are found afterwards
+	// through the restarted node and through the others, by every path
+	var kept []uuid.UUID
+	for i := 0; i < 8 && !violated; i++ {
+		var id uuid.UUID
+		rng.Read(id[:])
+		if err := call(cl.Nodes[i%nodes], []string{"insert", "batch-insert"}[i%2], id, float32(1000+i)); err != nil {
+			fail("write-failed:insert", fmt.Sprintf("insert before the restart through node %d: %v", i%nodes+1, err))
+			return
+		}
+		expectStored(id, "insert", true)
+		kept = append(kept, id)
+	}
+	victim := cl.Nodes[rng.Intn(nodes)]
+	how := "log-replay"
+	if c%2 == 0 {
+		for _, n := range cl.Nodes {
+			cl.TriggerSnapshot(n, uuid.Nil, 0)
+		}
+		time.Sleep(100 * time.Millisecond)
+		how = "catalogue-snapshot"
+	}
+	if err := cl.Restart(victim.Idx); err != nil {
+		rec.Inconclusive(fmt.Sprintf("%s: restart of node %d: %v", desc, victim.Id, err))
+		return
+	}
+	if err := cl.WaitDatasetReady(dsId, 30*time.Second); err != nil {
+		rec.Inconclusive(fmt.Sprintf("%s: dataset not ready after the restart of node %d", desc, victim.Id))
+		return
+	}
+	for i, id := range kept {
+		if violated {
+			return
+		}
+		upd := []string{"update", "batch-update"}[i%2]
+		via := victim
+		if i%4 >= 2 {
+			via = cl.Nodes[(victim.Idx+1)%nodes]
+		}
+		if err := retry(func() error { return call(via, upd, id, float32(2000+i)) }); err != nil {
+			if !strings.Contains(err.Error(), "not found") {
+				rec.Inconclusive(fmt.Sprintf("%s: %s through node %d after the restart kept failing: %v", desc, upd, via.Id, err))
+				return
+			}
+			fail("not-found-after-restart:"+how, fmt.Sprintf("%s through node %d of an id written before node %d restarted (%s): %v", upd, via.Id, victim.Id, how, err))
+			return
+		}
+		expectStored(id, upd+"-after-restart", true)
+		rem := []string{"remove", "batch-remove"}[(i/2)%2]
+		if err := retry(func() error { return call(victim, rem, id, 0) }); err != nil {
+			if !strings.Contains(err.Error(), "not found") {
+				rec.Inconclusive(fmt.Sprintf("%s: %s through node %d after the restart kept failing: %v", desc, rem, victim.Id, err))
+				return
+			}
+			fail("not-found-after-restart:"+how, fmt.Sprintf("%s through restarted node %d: %v", rem, victim.Id, err))
+			return
+		}
+		expectStored(id, rem+"-after-restart", false)
+	}
+	rec.Seen("restart_kinds", how)
 	rec.Case(mon.Digest(desc), true)
 	if rec.WantSample() {
 		rec.Sample(replay)
